@@ -19,6 +19,16 @@ fn k_gear_id_roundtrip() {
     kani::cover!(true, "reachable");
 }
 
+//@unit props=C09,C17 label=P tier=quick fn=gearsets::convert_from_gear_id
+//@desc stripping the marker is total: for every stored 32-bit value it returns without overflow, removes exactly the marker from values that carry it (>= 1000000) and leaves smaller values unchanged
+#[kani::proof]
+fn k_gear_id_strip_total() {
+    let stored: u32 = kani::any();
+    let id = convert_from_gear_id(stored);
+    if stored >= 1_000_000 { assert!(id == stored - 1_000_000, "marker removed"); } else { assert!(id == stored, "values without the marker are kept"); }
+    kani::cover!(stored < 1_000_000 && stored != 0, "reachable");
+}
+
 //@unit props=C09 label=S tier=quick fn=gearsets::GearSlot(derive read+write) bound="one 28-byte slot record, all contents with a stored item id >= 1000000" stubs=fmt::format
 //@desc item id = LE word 0 minus the marker, glamour id = LE word 1 (0 = none), five opaque words preserved; writing the parsed slot reproduces the 28 bytes
 #[kani::proof]
@@ -85,4 +95,45 @@ fn k_gearsets_header_only_nopanic() {
     b[8] = 0; b[9] = 0; b[10] = 0; b[11] = 0; // stated content size 0
     if let Some(g) = GearSets::from_existing(&b) { core::mem::forget(g); }
     kani::cover!(true, "reachable");
+}
+
+fn rs_model() -> std::collections::hash_map::RandomState {
+    unsafe { core::mem::transmute::<(u64, u64), std::collections::hash_map::RandomState>((0, 0)) }
+}
+fn named(i: u8) -> GearSet { GearSet { index: i, name: String::from("a"), unknown1: 0, slots: HashMap::new(), facewear: None } }
+
+//@unit props=C09 label=B tier=quick fn=gearsets::convert_to_gearsets bound="table with an empty entry at position 0, a set at 1, an empty entry at 2 and a set at 3 (set indices symbolic)" stubs=RandomState::new
+//@desc the written table is the fixed 100-slot table: set k is written at table position k (empty positions stay default), whatever gaps precede it
+#[kani::proof]
+#[kani::unwind(102)]
+#[kani::stub(std::collections::hash_map::RandomState::new, rs_model)]
+fn k_convert_to_gearsets_positions() {
+    let (a, b): (u8, u8) = (kani::any(), kani::any());
+    let v: Vec<Option<GearSet>> = vec![None, Some(named(a)), None, Some(named(b))];
+    let out = convert_to_gearsets(&v);
+    assert!(out.len() == 100, "fixed 100-slot table");
+    assert!(out[0].name.is_empty() && out[2].name.is_empty(), "empty positions stay empty");
+    assert!(out[1].index == a && !out[1].name.is_empty(), "set at position 1 is written at position 1");
+    assert!(out[3].index == b && !out[3].name.is_empty(), "set at position 3 is written at position 3");
+    assert!(out[4].name.is_empty() && out[99].name.is_empty(), "the rest of the table is empty");
+    kani::cover!(true, "reachable");
+    core::mem::forget(out); core::mem::forget(v);
+}
+
+//@unit props=C09 label=B tier=quick fn=gearsets::convert_from_gearsets bound="100-slot table with named sets at positions 1 and 3 only" stubs=RandomState::new
+//@desc reading maps table position k to list position k: named sets become Some at their own position, unnamed ones None
+#[kani::proof]
+#[kani::unwind(102)]
+#[kani::stub(std::collections::hash_map::RandomState::new, rs_model)]
+fn k_convert_from_gearsets_positions() {
+    let (a, b): (u8, u8) = (kani::any(), kani::any());
+    let mut t: [GearSet; 100] = core::array::from_fn(|_| GearSet::default());
+    t[1] = named(a);
+    t[3] = named(b);
+    let out = convert_from_gearsets(t);
+    assert!(out.len() == 100, "one list entry per table slot");
+    assert!(out[0].is_none() && out[2].is_none() && out[99].is_none(), "unnamed slots are empty");
+    match (&out[1], &out[3]) { (Some(x), Some(y)) => assert!(x.index == a && y.index == b, "sets keep their positions"), _ => assert!(false, "named slots are present") }
+    kani::cover!(true, "reachable");
+    core::mem::forget(out);
 }
